@@ -18,7 +18,7 @@ BOUNDS = dict(C01.BOUNDS)
 OUTSIDE = C01.OUTSIDE + ["in-place modification of the *seed* arrays is only reported through its observable effect "
                          "(second sensitivity() adds a different amount), as the property states"]
 ASSUMPTIONS = C01.ASSUMPTIONS[:2] + ["seeds w1, w2 and scalars a, b are free symbols (complex where the output is complex)"]
-ITEM_TIMEOUT = {"quick": 110, "thorough": 900}
+ITEM_TIMEOUT = {"quick": 240, "thorough": 900}
 
 
 def items(tier):
